@@ -7,12 +7,12 @@ import DebInspector.Proofs.Splitlines
 namespace Props.C08
 open Py Model.Email Proofs.Splitlines
 
-theorem dset_keys_mem (d : Dict) (k v : Str) (h : k ∈ d.map (·.1)) : (dset d k v).map (·.1) = d.map (·.1) := by
+theorem vset_keys_mem (d : VDict) (k : Str) (v : List Str) (h : k ∈ d.map (·.1)) : (vset d k v).map (·.1) = d.map (·.1) := by
   induction d with
   | nil => simp at h
   | cons kv rest ih =>
     obtain ⟨k', v'⟩ := kv
-    unfold dset
+    unfold vset
     split
     · simp
     · rename_i hne
@@ -21,17 +21,17 @@ theorem dset_keys_mem (d : Dict) (k v : Str) (h : k ∈ d.map (·.1)) : (dset d 
       · exact absurd h.symm hne
       · simp [ih h]
 
-theorem dset_keys_new (d : Dict) (k v : Str) (h : k ∉ d.map (·.1)) : (dset d k v).map (·.1) = d.map (·.1) ++ [k] := by
+theorem vset_keys_new (d : VDict) (k : Str) (v : List Str) (h : k ∉ d.map (·.1)) : (vset d k v).map (·.1) = d.map (·.1) ++ [k] := by
   induction d with
-  | nil => simp [dset]
+  | nil => simp [vset]
   | cons kv rest ih =>
     obtain ⟨k', v'⟩ := kv
     simp only [List.map_cons, List.mem_cons, not_or] at h
-    unfold dset
+    unfold vset
     have : ¬ k' = k := fun e => h.1 e.symm
     simp [this, ih h.2]
 
-theorem lookup_some_mem (d : Dict) (k : Str) (v : Str) (h : d.lookup k = some v) : k ∈ d.map (·.1) := by
+theorem lookup_some_mem {β} (d : List (Str × β)) (k : Str) (v : β) (h : d.lookup k = some v) : k ∈ d.map (·.1) := by
   induction d with
   | nil => simp [List.lookup] at h
   | cons kv rest ih =>
@@ -43,7 +43,7 @@ theorem lookup_some_mem (d : Dict) (k : Str) (v : Str) (h : d.lookup k = some v)
       simp only [this] at h
       simp [ih h]
 
-theorem lookup_none_not_mem (d : Dict) (k : Str) (h : d.lookup k = none) : k ∉ d.map (·.1) := by
+theorem lookup_none_not_mem {β} (d : List (Str × β)) (k : Str) (h : d.lookup k = none) : k ∉ d.map (·.1) := by
   induction d with
   | nil => simp
   | cons kv rest ih =>
@@ -59,7 +59,7 @@ def firstOccurrences : List Str → List Str → List Str
   | acc, [] => acc
   | acc, n :: ns => if acc.contains n then firstOccurrences acc ns else firstOccurrences (acc ++ [n]) ns
 
-theorem mergeStep_keys (d : Dict) (nv : Str × Str) :
+theorem mergeStep_keys (d : VDict) (nv : Str × Str) :
     (mergeStep d nv).map (·.1) =
       if (d.map (·.1)).contains (strip (lowerAscii nv.1)) then d.map (·.1)
       else d.map (·.1) ++ [strip (lowerAscii nv.1)] := by
@@ -69,13 +69,13 @@ theorem mergeStep_keys (d : Dict) (nv : Str × Str) :
   | some old =>
     have hm := lookup_some_mem d _ _ hl
     simp only [List.contains_iff_mem, hm, if_true]
-    exact dset_keys_mem d _ _ hm
+    exact vset_keys_mem d _ _ hm
   | none =>
     have hm := lookup_none_not_mem d _ hl
     simp only [List.contains_iff_mem, hm, if_false]
-    exact dset_keys_new d _ _ hm
+    exact vset_keys_new d _ _ hm
 
-theorem foldl_mergeStep_keys (its : List (Str × Str)) (d : Dict) :
+theorem foldl_mergeStep_keys (its : List (Str × Str)) (d : VDict) :
     (its.foldl mergeStep d).map (·.1) =
       firstOccurrences (d.map (·.1)) (its.map fun nv => strip (lowerAscii nv.1)) := by
   induction its generalizing d with
@@ -89,6 +89,9 @@ a repeated name never creates a second key and never moves the first one -/
 theorem mergeItems_keys (items : List (Str × Str)) :
     (mergeItems items).map (·.1) = firstOccurrences [] (items.map fun nv => strip (lowerAscii nv.1)) := by
   unfold mergeItems
+  rw [List.map_map]
+  have : ((fun (x : Str × Str) => x.1) ∘ fun (kv : Str × List Str) => (kv.1, joinNl kv.2)) = fun kv => kv.1 := rfl
+  rw [this]
   simpa using foldl_mergeStep_keys items []
 
 /-- non-vacuity: the two inputs of the pinned-tree defects, and a body after a blank line -/
@@ -100,40 +103,32 @@ example : getParagraphData "a: 1\n\nbody text\n".toList = [("a".toList, "1".toLi
 
 /-! ### the values of the merged mapping -/
 
-theorem joinNl_eq (ls : List Str) : Model.Email.joinNl ls = Model.Debcon.joinNl ls := by
-  induction ls with
-  | nil => rfl
-  | cons l ls ih =>
-    cases ls with
-    | nil => rfl
-    | cons m ms => simp only [Model.Email.joinNl, Model.Debcon.joinNl, ih]
-
 /-- the key of an item, the value of an item, as the merging loop sees them -/
 def keyOf (nv : Str × Str) : Str := strip (lowerAscii nv.1)
 def valOf (nv : Str × Str) : Str := strip nv.2
-
-/-- a single-line value: not empty, no line boundary -/
-def OneLine (v : Str) : Prop := v ≠ [] ∧ NoB v
 
 def addNew (acc : List Str) (v : Str) : List Str := if acc.contains v then acc else acc ++ [v]
 
 /-- distinct values in order of first appearance -/
 def distinct (vs : List Str) : List Str := vs.foldl addNew []
 
-/-- the values spelled for key `k`, in order -/
-def valuesFor (k : Str) (items : List (Str × Str)) : List Str := (items.filter fun nv => keyOf nv = k).map valOf
+/-- the non-empty values spelled for key `k`, in order -/
+def valuesFor (k : Str) (items : List (Str × Str)) : List Str :=
+  ((items.filter fun nv => keyOf nv = k).map valOf).filter (!·.isEmpty)
 
-theorem lookup_dset (d : Dict) (k k' v : Str) :
-    (dset d k v).lookup k' = if k' = k then some v else d.lookup k' := by
+def mentioned (k : Str) (items : List (Str × Str)) : Bool := items.any fun nv => keyOf nv = k
+
+theorem lookup_vset (d : VDict) (k k' : Str) (v : List Str) :
+    (vset d k v).lookup k' = if k' = k then some v else d.lookup k' := by
   induction d with
   | nil =>
     by_cases e : k' = k
-    · subst e; simp [dset]
+    · subst e; simp [vset]
     · have : (k' == k) = false := by simpa using e
-      simp [dset, List.lookup, this, e]
+      simp [vset, List.lookup, this, e]
   | cons kv rest ih =>
     obtain ⟨a, b⟩ := kv
-    unfold dset
+    unfold vset
     by_cases hak : a = k
     · subst hak
       simp only [if_true, List.lookup]
@@ -148,23 +143,6 @@ theorem lookup_dset (d : Dict) (k k' v : Str) :
         simp [this]
       · have : (k' == a) = false := by simpa using e
         simp only [this, ih]
-
-theorem dropLastEmpty_of_nonempty (ds : List Str) (h : ∀ d ∈ ds, d ≠ []) : dropLastEmpty ds = ds := by
-  induction ds with
-  | nil => rfl
-  | cons l ls ih =>
-    cases ls with
-    | nil =>
-      have : l ≠ [] := h l (by simp)
-      have : l.isEmpty = false := by cases l <;> simp_all
-      simp [dropLastEmpty, this]
-    | cons m ms =>
-      simp only [dropLastEmpty]
-      rw [ih (fun d hd => h d (by simp [hd]))]
-
-theorem splitlines_joinNl_oneLine (ds : List Str) (h : ∀ d ∈ ds, OneLine d) :
-    splitlines (Model.Email.joinNl ds) = ds := by
-  rw [joinNl_eq, splitlines_joinNl ds (fun d hd => (h d hd).2), dropLastEmpty_of_nonempty ds (fun d hd => (h d hd).1)]
 
 theorem addNew_mem (acc : List Str) (v : Str) : ∀ x ∈ addNew acc v, x ∈ acc ∨ x = v := by
   intro x hx
@@ -207,72 +185,108 @@ theorem distinct_ne_nil (vs : List Str) (h : vs ≠ []) : distinct vs ≠ [] := 
     · rename_i hc; intro e; subst e; simp at hc
     · simp
 
-def spec (k : Str) (items : List (Str × Str)) : Option Str :=
-  if valuesFor k items = [] then none else some (Model.Email.joinNl (distinct (valuesFor k items)))
+/-- what the loop holds for key `k` after the items `items` -/
+def specV (k : Str) (items : List (Str × Str)) : Option (List Str) :=
+  if mentioned k items then some (distinct (valuesFor k items)) else none
 
-theorem mergeStep_spec (d : Dict) (pre : List (Str × Str)) (nv : Str × Str)
-    (hpre : ∀ x ∈ pre, OneLine (valOf x)) (hinv : ∀ k, d.lookup k = spec k pre) (k : Str) :
-    (mergeStep d nv).lookup k = spec k (pre ++ [nv]) := by
+theorem mergeStep_spec (d : VDict) (pre : List (Str × Str)) (nv : Str × Str)
+    (hinv : ∀ k, d.lookup k = specV k pre) (k : Str) :
+    (mergeStep d nv).lookup k = specV k (pre ++ [nv]) := by
   have ih := hinv k
-  unfold spec at ih ⊢
+  unfold specV at ih ⊢
   unfold mergeStep
   simp only
+  have hment : mentioned k (pre ++ [nv]) = (mentioned k pre || decide (keyOf nv = k)) := by
+    simp [mentioned, List.any_append]
   have hvf : valuesFor k (pre ++ [nv]) =
-      if keyOf nv = k then valuesFor k pre ++ [valOf nv] else valuesFor k pre := by
+      if keyOf nv = k ∧ (valOf nv).isEmpty = false then valuesFor k pre ++ [valOf nv] else valuesFor k pre := by
     unfold valuesFor
-    rw [List.filter_append]
-    by_cases e : keyOf nv = k <;> simp [e]
+    rw [List.filter_append, List.map_append, List.filter_append]
+    by_cases e : keyOf nv = k
+    · cases hv : (valOf nv).isEmpty <;> simp [e, hv]
+    · simp [e]
   by_cases e : keyOf nv = k
   · have e' : strip (lowerAscii nv.1) = k := e
-    rw [e']
-    rw [hvf, if_pos e]
-    have hne : valuesFor k pre ++ [valOf nv] ≠ [] := by simp
-    rw [if_neg hne, distinct_snoc, ih]
-    by_cases hemp : valuesFor k pre = []
-    · rw [if_pos hemp]
-      simp only [lookup_dset, if_true, hemp, distinct, List.foldl_nil, addNew]
-      simp [Model.Email.joinNl, valOf]
-    · rw [if_neg hemp]
-      simp only [lookup_dset, if_true]
-      have hall : ∀ d ∈ distinct (valuesFor k pre), OneLine d := by
-        intro d hd
-        have := distinct_mem _ d hd
-        unfold valuesFor at this
-        simp only [List.mem_map, List.mem_filter] at this
-        obtain ⟨x, ⟨hx, _⟩, rfl⟩ := this
-        exact hpre x hx
-      rw [splitlines_joinNl_oneLine _ hall]
-      unfold addNew valOf
-      rfl
+    rw [e', hment]
+    simp only [e, decide_true, Bool.or_true, if_true, lookup_vset]
+    rw [ih, hvf]
+    have hval : strip nv.2 = valOf nv := rfl
+    rw [hval]
+    cases hv : (valOf nv).isEmpty with
+    | true =>
+      simp only [e, Bool.true_eq_false, and_false, if_false, Bool.true_or, if_true]
+      cases hm : mentioned k pre with
+      | true => simp
+      | false =>
+        -- nothing spelled for k so far
+        have : valuesFor k pre = [] := by
+          unfold valuesFor
+          have : (pre.filter fun nv => keyOf nv = k) = [] := by
+            rw [List.filter_eq_nil_iff]
+            intro x hx hk
+            simp only [mentioned, List.any_eq_false] at hm
+            exact hm x hx hk
+          rw [this]; rfl
+        simp [this, distinct]
+    | false =>
+      simp only [e, and_self, if_true, Bool.false_or, distinct_snoc]
+      cases hm : mentioned k pre with
+      | true => simp only [if_true, Option.getD_some]; rfl
+      | false =>
+        have : valuesFor k pre = [] := by
+          unfold valuesFor
+          have : (pre.filter fun nv => keyOf nv = k) = [] := by
+            rw [List.filter_eq_nil_iff]
+            intro x hx hk
+            simp only [mentioned, List.any_eq_false] at hm
+            exact hm x hx hk
+          rw [this]; rfl
+        simp only [Bool.false_eq_true, if_false, Option.getD_none, this, distinct, List.foldl_nil]
+        rfl
   · have e' : ¬ k = strip (lowerAscii nv.1) := fun x => e x.symm
-    rw [hvf, if_neg e]
-    cases hl : List.lookup (strip (lowerAscii nv.1)) d with
-    | none => simp only [lookup_dset, e', if_false]; exact ih
-    | some old => simp only [lookup_dset, e', if_false]; exact ih
+    rw [hment, hvf]
+    simp only [e, decide_false, Bool.or_false, false_and, if_false, lookup_vset, e']
+    exact ih
 
-theorem foldl_mergeStep_spec (items pre : List (Str × Str)) (d : Dict)
-    (h : ∀ x ∈ pre ++ items, OneLine (valOf x)) (hinv : ∀ k, d.lookup k = spec k pre) (k : Str) :
-    (items.foldl mergeStep d).lookup k = spec k (pre ++ items) := by
+theorem foldl_mergeStep_spec (items pre : List (Str × Str)) (d : VDict)
+    (hinv : ∀ k, d.lookup k = specV k pre) (k : Str) :
+    (items.foldl mergeStep d).lookup k = specV k (pre ++ items) := by
   induction items generalizing pre d with
   | nil => simpa using hinv k
   | cons nv rest ih =>
     rw [List.foldl_cons]
-    have := ih (pre ++ [nv]) (mergeStep d nv) (by simpa using h)
-      (mergeStep_spec d pre nv (fun x hx => h x (by simp [hx])) hinv)
+    have := ih (pre ++ [nv]) (mergeStep d nv) (mergeStep_spec d pre nv hinv)
     simpa using this
 
-/-- **duplicates merge losslessly** — after the merging loop, every key maps to the distinct values
-spelled for it (trimmed), in order of first appearance, newline-separated; for any number of items,
-any pattern of repeated names and repeated values, provided the trimmed values are single lines -/
-theorem mergeItems_lookup (items : List (Str × Str)) (h : ∀ nv ∈ items, OneLine (valOf nv)) (k : Str) :
-    (mergeItems items).lookup k =
-      if valuesFor k items = [] then none else some (Model.Email.joinNl (distinct (valuesFor k items))) := by
-  have := foldl_mergeStep_spec items [] [] (by simpa using h) (by intro k; simp [spec, valuesFor, List.lookup]) k
-  simpa [mergeItems, spec] using this
+theorem lookup_map_snd {β γ} (d : List (Str × β)) (f : β → γ) (k : Str) :
+    (d.map fun kv => (kv.1, f kv.2)).lookup k = (d.lookup k).map f := by
+  induction d with
+  | nil => rfl
+  | cons kv rest ih =>
+    obtain ⟨a, b⟩ := kv
+    simp only [List.map_cons, List.lookup]
+    cases (k == a) <;> simp [ih]
 
-/-- non-vacuity: a, b, a and a, a, b patterns interleaved with another field -/
+/-- **duplicates merge losslessly** — after the merging loop, every key that is mentioned maps to the distinct
+non-empty values spelled for it (trimmed, whole: a multi-line value is one value), in order of first appearance,
+newline-separated; for any number of items, any pattern of repeated names and repeated values -/
+theorem mergeItems_lookup (items : List (Str × Str)) (k : Str) :
+    (mergeItems items).lookup k =
+      if mentioned k items then some (Model.Email.joinNl (distinct (valuesFor k items))) else none := by
+  unfold mergeItems
+  rw [lookup_map_snd]
+  have := foldl_mergeStep_spec items [] [] (by intro k; simp [specV, mentioned, List.lookup]) k
+  simp only [List.nil_append] at this
+  rw [this]
+  unfold specV
+  cases mentioned k items <;> rfl
+
+/-- non-vacuity: a, b, a and a, a, b patterns interleaved with another field; a multi-line value repeated, and a
+single-line value equal to one line of an earlier multi-line value (kept: it is a distinct value) -/
 example : mergeItems [("A".toList, "1".toList), ("b".toList, "x".toList), ("a".toList, " 2 ".toList), ("a".toList, "1".toList), ("B".toList, "x".toList)]
     = [("a".toList, "1\n2".toList), ("b".toList, "x".toList)] := by decide +kernel
+example : mergeItems [("a".toList, "x\n c".toList), ("a".toList, "x".toList), ("a".toList, "x\n c".toList)]
+    = [("a".toList, "x\n c\nx".toList)] := by decide +kernel
 
 
 end Props.C08
